@@ -44,6 +44,24 @@ def main():
             env["VERIF_C12_NOREF"] = "1"   # no sequential warm-up: the threads hit every first use concurrently
         return plan + run([exe_t, "stress", str(chk.seed + p), str(nt), gadir], timeout=3600, env=env)
 
+    # the same configurations, each ALONE in a process of its own (per seed used by the stress plans)
+    def alone(a):
+        sd, j = a
+        return a + run([exe_t, "alone", str(sd), str(j), gadir], timeout=1800, env=build.lib_env("tsan", dict(TSAN_ENV)))
+
+    rc0, out0, _ = run([exe_t, "alone", "1", "0", gadir], timeout=1800, env=build.lib_env("tsan", dict(TSAN_ENV)))
+    njobs = json.loads(out0.splitlines()[-1])["njobs"] if rc0 == 0 and out0.strip() else 0
+    chk.require(njobs > 0, "the 'alone' mode of c12_threads gave no result")
+    alone_hash = {}
+    alone_seeds = sorted({chk.seed + p for p, _, _ in plans})[: (3 if quick else 12)]
+    for sd, j, rc, out, err in pmap(alone, [(sd, j) for sd in alone_seeds for j in range(njobs)], jobs=NCPU):
+        recs = [json.loads(l) for l in out.splitlines() if l.startswith("{")]
+        if rc != 0 or not recs:
+            chk.inconclusive_("alone process (seed %d, job %d) gave no result (rc=%s): %s" % (sd, j, rc, err[-300:]))
+            continue
+        alone_hash[(sd, j)] = recs[0]
+    alone_compared = 0
+
     streams = events = procs = 0
     tsan_classes = {}
     qng = etol = 0
@@ -65,6 +83,16 @@ def main():
         sample = sample or {k: r[k] for k in ("threads", "streams", "events", "jobs_accepted", "qng_calls", "qng_etol")}
         if r["jobs_accepted"] < r["jobs"] and not noref:
             chk.inconclusive_("only %d of %d stress configurations initialise" % (r["jobs_accepted"], r["jobs"]))
+        for j, hs in enumerate(r.get("job_hashes", [])):
+            a = alone_hash.get((chk.seed + p, j))
+            if a is None:
+                continue
+            alone_compared += len(hs)
+            if any(h != a["hash"] for h in hs):
+                chk.violation("differs-from-run-alone|%s/m%d" % (a["name"], a["dbd_mode"]),
+                              "configuration %s/L%d/m%d: an instance in the shared process (threads=%d, with%s sequential warm-up) gives another event stream than the same configuration, "
+                              "seed and deviates alone in a process of its own" % (a["name"], a["level"], a["dbd_mode"], nt, "out" if noref else ""),
+                              {"threads": nt, "job": j, "seed": chk.seed + p, "hashes_in_shared_process": hs, "hash_alone": a["hash"]})
         for m in r["mismatches"]:
             chk.violation(m["key"], "%s [threads=%d]" % (m["detail"], nt), {"threads": nt, "detail": m["detail"]})
         if r["integration_with_handler_on"] > 0:
@@ -189,6 +217,7 @@ def main():
         "stress_processes": procs,
         "first_use": {"processes": fu_procs, "results_compared_with_sequential": fu_streams,
                       "entry_points": "stand-alone dbd_gA on the shipped table (resource lookup), DBD / background / quadrature generators, catalogue accessors, get_resource, event_reader"},
+        "streams_compared_with_the_configuration_run_alone_in_its_own_process": alone_compared,
         "sweep": {"processes": nproc, "configurations": sweep_cfgs, "thread_streams_compared": sweep_streams, "processes_rerun_after_a_sanitizer_runtime_failure": sweep_retries},
         "thread_streams_compared": streams,
         "events": events,
